@@ -2410,6 +2410,7 @@ func translate(repo string, p *pkgFiles, outPath string) {
 		{fn: "MakeResponse", recv: "IdpAuthnRequest", as: "responseHeader", anchor: "response := &Response{", until: "responseEl := response.Element()", yield: "response", yieldTy: "(Option Response)"},
 		{fn: "GetSSOBindingLocation", recv: "ServiceProvider"},
 		{fn: "GetSLOBindingLocation", recv: "ServiceProvider"},
+		{fn: "GetArtifactBindingLocation", recv: "ServiceProvider"},
 		{fn: "ServeIDPInitiated", recv: "IdentityProvider", as: "idpInitiatedGate", state: "req", trace: true,
 			anchor: "session := idp.SessionProvider.GetSession(w, r, req)", until: "for _, spssoDescriptor := range req.ServiceProviderMetadata.SPSSODescriptors"},
 		{fn: "ServeSSO", recv: "IdentityProvider", as: "serveSSOGate", trace: true, until: "assertionMaker := idp.AssertionMaker"},
